@@ -1,4 +1,5 @@
 import PrimaiteModel.Model.Filter
+import PrimaiteModel.Model.FilterClass
 open Primaite Primaite.Acl Primaite.Cut Primaite.Filter
 
 /-! Line-protocol driver for the C06 element models (Model/Filter.lean).
@@ -165,12 +166,27 @@ certificate of Model/Filter.lean (`certify`, proved sound in Props/C06.lean).
   t-acl <node> <id> <PERMIT|DENY> | t-rule <node> <id> <pos> <rule fields…>
   t-wire <n> <q> <m> <r>                                                                  (adds both directions)
   t-certify  → certified | uncertified <first failing node>
+
+Class-aware certificate (`certifyC`, proved sound in Props/C06Class.lean), same topology:
+  t-iface <node> <enabled> <ip> <mask>                                                     (addresses, for the ARP condition)
+  t-class <proto|-> <sip|-> <swc|-> <dip|-> <dwc|-> <sport|-> <dport|->                     (one pattern of the frame class)
+  t-arp <0/1>                                                                             (genuine ARP packets circulate too)
+  t-certifyC → certifiedC | uncertifiedC <first failing node>
 -/
 
 structure DState where
   node : DNode := initNode
   topo : Topo := { nodes := [], wires := [] }
   states : List DNode := []
+  cls : List Rule := []
+  arpExempt : Bool := false
+
+def roleC : RoleTag → RoleTagC
+  | .interior => .interior | .ifaceDown => .ifaceDown | .routerOff => .routerOff | .routerDeny => .routerDenyC
+  | .fwDeny => .fwDenyC | .frozen => .frozen
+
+def DState.topoC (st : DState) : TopoC :=
+  { nodes := st.topo.nodes.map (fun x => (x.1, roleC x.2)), wires := st.topo.wires, cls := st.cls, arpExempt := st.arpExempt }
 
 def parseRole : String → Option RoleTag
   | "interior" => some .interior | "ifaceDown" => some .ifaceDown | "routerOff" => some .routerOff
@@ -182,7 +198,29 @@ def onNode (st : DState) (i : Nat) (f : DNode → DNode × String) : DState × S
   | none => (st, "bad-op")
 
 def stepAll (st : DState) : List String → DState × String
-  | ["t-new"] => ({ st with topo := { nodes := [], wires := [] }, states := [] }, "ok")
+  | ["t-new"] => ({ st with topo := { nodes := [], wires := [] }, states := [], cls := [], arpExempt := false }, "ok")
+  | ["t-iface", i, en, ip, mask] =>
+    match i.toNat?, parseBool en, parseIp ip, parseIp mask with
+    | some i, some en, some ip, some mask =>
+      onNode st i fun n => ({ n with ifaces := n.ifaces ++ [{ enabled := en, mac := 0, ip := ip, mask := mask }] }, "ok")
+    | _, _, _, _ => (st, "bad-op")
+  | ["t-class", pr, sip, swc, dip, dwc, sp, dp] =>
+    match parseOpt parseProto pr, parseOpt parseIp sip, parseOpt parseIp swc, parseOpt parseIp dip, parseOpt parseIp dwc,
+          optNat sp, optNat dp with
+    | some pr, some sip, some swc, some dip, some dwc, some sp, some dp =>
+      ({ st with cls := st.cls ++ [{ action := .deny, proto := pr, srcIp := sip, srcWc := swc, dstIp := dip, dstWc := dwc,
+                                     srcPort := sp, dstPort := dp }] }, "ok")
+    | _, _, _, _, _, _, _ => (st, "bad-op")
+  | ["t-arp", b] =>
+    match parseBool b with
+    | some b => ({ st with arpExempt := b }, "ok")
+    | none => (st, "bad-op")
+  | ["t-certifyC"] =>
+    let σ : Nat → DNode := fun n => st.states.getD n initNode
+    if certifyC st.topoC σ then (st, "certifiedC")
+    else match certifyFailC st.topoC σ with
+      | some n => (st, s!"uncertifiedC {n}")
+      | none => (st, "uncertifiedC ?")
   | ["t-node", k, on, side, role] =>
     match parseKind k, parseBool on, parseBool side, parseRole role with
     | some k, some on, some side, some role =>
